@@ -15,7 +15,8 @@ CHECKS = [
           '(quick) / 65 (thorough) fully symbolic leaves with the hash an uninterpreted function: fold-back, '
           'root-by-definition, branch length, TSC markers proved by congruence for every index.  K3: MerkleCache '
           'initialise/query/truncate/query sequences over a symbolic source, all lengths/indices solver-enumerated, '
-          'each result equal to the from-scratch one.',
+          'each result equal to the from-scratch one; in the order (overtaken query, query) the truncation happens during '
+          'the k-th source read of a request (k solver-chosen) whose answer must be of the source before or after.',
   'note': 'Trusted: CPython, z3, symx proxies and the hash-as-uninterpreted-function model (equalities hold for every '
           'hash function); native replay of witnesses with real double_sha256. Outside: n above the bounds, longer '
           'cache operation sequences.',
@@ -33,7 +34,8 @@ CHECKS = [
   'design_ref': 'DESIGN.md section 4, C13'},
  {'id': 'C01',
   'text': 'K3: a symbolic chain from genesis (tx hash prefixes, values, marked script bytes, spend selectors, activation '
-          'height symbolic; flush schedule enumerated) is indexed by the real advance_block/flush_dbs and all_utxos, '
+          'height symbolic; flush schedule enumerated, incl. flushes right after the last block; some shapes with the flat '
+          'files split into physical files of two records) is indexed by the real advance_block/flush_dbs and all_utxos, '
           'lookup_utxos, counts, tip, headers and tx-hash files are proved equal to an independent reference indexer on '
           'every feasible path.  K1: UTXO table layout round trip with every key/value byte of 2-3 records symbolic '
           '(prefix+index collisions included) through the real flush_utxo_db / spend_utxo / all_utxos / lookup_utxos.  '
@@ -56,7 +58,8 @@ CHECKS = [
   'text': 'K1: symbolic chains (as C01) are flushed, backed out by 1..3 calls of the real backup_block (undo info, '
           'History.backup, flush_backup) and re-advanced on a symbolic new branch that may spend anything unspent on '
           'the surviving chain; after the backup and after the re-advance (also after restart) every observable is '
-          'proved equal to the reference of the surviving chain.  K2: the real _calc_reorg_range against two chains '
+          'proved equal to the reference of the surviving chain; shapes with the fork exactly as deep as the reorg limit '
+          'after a multi-block catch-up.  K2: the real _calc_reorg_range against two chains '
           'sharing a prefix of symbolic length: start/count exact for every fork depth 1..D (D=8 quick, 32 thorough) '
           'at the listed heights, and for forced reorgs of any count.  K3: reorganisation stories (depth 1..3, natural '
           'and forced, non-respending branches) through the real asynchronous shell with the real OnDiskBlock (raw block '
@@ -70,7 +73,9 @@ CHECKS = [
           'or leaves arbitrary symbolic bytes (torn file write).  After restart through the real open_for_sync z3 shows, '
           'for all garbage bytes, that the stored height is between the last completed full flush and the block in '
           'progress, that every observable equals the reference at that height, and that resuming reaches the reference '
-          'of the whole chain.  Flush schedules enumerated; second crash during recovery in thorough.  BATCHCFG: a '
+          'of the whole chain, after which the top block is backed out with the real backup_block (the undo information is '
+          'part of what was committed).  Flush schedules enumerated; second crash during recovery in thorough; one shape '
+          'with the flat files split into tiny physical files (a logical write = several crash points).  BATCHCFG: a '
           'concrete companion (not a solver verdict) opens the real LevelDB storage class and checks what the atomicity '
           'assumption rests on: an abandoned batch leaves nothing, a completed one survives a reopen.',
   'note': 'Assumes atomic LevelDB batches/puts and that completed file writes survive process death (no power loss). '
@@ -95,7 +100,9 @@ CHECKS = [
           'runs with max_hist_row_entries 2/3 and a symbolic batch limit and is completed, or stopped after 1-2 batches '
           'and resumed, or abandoned by a normal start (_cancel_compaction); get_txnums of every script hash is proved '
           'unchanged at every stage, and a further flush plus History.backup at a symbolic threshold on top is proved '
-          'equal to the reference.  The real electrumx_compact_history script is also executed from its source.',
+          'equal to the reference; one mode: compaction killed between batches, start with no block pending (open for sync, '
+          'then for serving), a block touching every script hash, second compaction, more blocks.  The real '
+          'electrumx_compact_history script is also executed from its source.',
   'note': 'Under the property\'s own restriction (no script hash with more compacted rows than flushes).  Trusted: as C01; '
           'script-hash keys concrete (the tool walks all 65536 two-byte prefixes).',
   'design_ref': 'DESIGN.md section 4, C14'},
@@ -104,7 +111,8 @@ CHECKS = [
           'cached height at each block symbolic (non-decreasing, caught up at the end); z3 shows for all limits and '
           'trajectories that undo information exists for every height in (tip-L, tip], that after a restart nothing '
           'older remains and the window is intact, and that the real backup_block succeeds for exactly min(L, k-1) '
-          'blocks and then refuses with ChainError.',
+          'blocks and then refuses with ChainError.  CRASHWIN: the same window after a crash at a symbolic durable operation, '
+          'restart and resume (reorg limit concrete).',
   'note': 'Trusted: as C01.  Only comparisons are involved, so paths partition the integers by order type; k <= 3 '
           '(quick) / 5 (thorough) blocks.',
   'design_ref': 'DESIGN.md section 4, C15'},
@@ -115,7 +123,8 @@ CHECKS = [
           '(concrete companion K1c checks the hex).  K2: real SessionManager.limited_history / address_status / '
           'hashX_subscribe / subscription_address_status / _notify_inner with MAX_SEND symbolic and histories at '
           'limit-1, limit, limit+1: full history below, history-too-large at/above (also cached), nothing stored by a '
-          'failed subscribe, subscription dropped on notification with no status hash sent.',
+          'failed subscribe, subscription dropped on notification with no status hash sent; the first k reads of a request '
+          'overtaken by a real _notify_sessions call.',
   'note': 'Stubs: headers file and header-merkle call record their arguments (K1); DB.limited_history returns the first '
           'limit entries of a fixed history (K2).  Trusted: CPython, z3, symx proxies (int() shadow keeps symbolic '
           'integers symbolic).',
@@ -162,7 +171,8 @@ CHECKS = [
           'symbolic integers, the spend graph (confirmed outputs, mempool parents, generation-like inputs) and the '
           'hash-to-role assignment (= every delivery order) are solver-enumerated, arrival/eviction/confirmation '
           'events are enumerated; after every synchronised refresh balance delta, (hash, fee, flag) set, unconfirmed '
-          'outputs, potential spends and the touched set are proved against the reference for every script-hash class.  '
+          'outputs, potential spends and the touched set are proved against the reference for every script-hash class; one '
+          'shape scales the fetch batch size (200) down to 1 so that several batches are merged.  '
           'DBLOOKUP (shared with C09): a refresh wired to the REAL DB.lookup_utxos over a flushed symbolic chain, spent '
           'output solver-chosen, live outputs and an absent outpoint free to share compressed-hash prefix and index.',
   'note': 'Stubs: MemPoolAPI (reference world), read_tx (prepared Tx), run_in_thread, sleep.  Daemon-validity '
@@ -175,7 +185,8 @@ CHECKS = [
           'input pairs and fee equal the reference; after two quiet refreshes the exact C08 view is proved.  DBLOOKUP: '
           'the refresh against the real DB.lookup_utxos (flushed symbolic chain): a transaction spending an outpoint that '
           'is not in the index - free to collide with indexed ones on prefix+index - is never recorded, one spending any '
-          'live output is recorded with exactly the index\'s script hash and value.',
+          'live output is recorded with exactly the index\'s script hash and value; in one shape a block spending a '
+          'solver-chosen live output is indexed and flushed between the two passes of lookup_utxos.',
   'note': 'As C08; 1 (quick) / 2 (thorough) world changes; heights only rise during a refresh.',
   'design_ref': 'DESIGN.md section 4, C09'},
  {'id': 'C07',
@@ -196,7 +207,7 @@ CHECKS = [
   'technique': 'symx gate scheduler: real components on an asyncio loop, bounded schedule deviations solver-enumerated',
   'text': 'The C07 machinery with client queries (history, balance, listunspent, mempool, id-from-position) placed '
           'before, inside (right after backup_block returns; or with the read started just before the undo and delivered '
-          'after the reorg handler ran) and after reorg windows or racing a block; at quiescence '
+          'after the reorg handler ran) and after reorg windows or racing a block; at quiescence a proof request, then '
           'every query for the listed script-hash classes and every (height, position) is repeated and proved equal '
           'to the reference on the daemon\'s chain and mempool.',
   'note': 'As C07.',
